@@ -126,7 +126,10 @@ func (p *Proof) Verify(hash *hash.Hash, public Public) bool {
 
 	{
 		// lhs = Enc₀(z₁;w)
-		lhs := public.Prover.EncWithNonce(p.Z1, p.W)
+		// z₁ = α + e•y is not range checked and exceeds the plaintext range for large y (EncWithNonce
+		// would panic): encrypt its symmetric representative mod N, which gives the same ciphertext
+		z1 := new(saferith.Int).SetModSymmetric(p.Z1.Mod(public.Prover.N()), public.Prover.N())
+		lhs := public.Prover.EncWithNonce(z1, p.W)
 
 		// rhs = (e ⊙ C) ⊕ A
 		rhs := public.C.Clone().Mul(public.Prover, e).Add(public.Prover, p.A)
